@@ -289,6 +289,96 @@ theorem favor_cpu_equiv_from {H : Type} (M : HasherModel H) (overlap bound : Nat
     rw [e, List.drop_zero, List.take_take, Nat.min_self]
   · rw [if_neg (by omega), if_neg hgt]
 
+/-! ## H10 (binary tree, quality 10/11): `Store` is opaque -/
+
+/-- H10 over an opaque per-position `Store(data, usize::MAX, ix)` and an opaque empty forest:
+`BulkStoreRange` is the plain loop (C19 `bulk_eq_fold_store_h10`) -/
+def h10Model {σ : Type} (store : ByteArray → Nat → σ → Option σ) (empty : σ) : HasherModel (Option σ) :=
+  ⟨some empty, liftBulk fun d _ s e st => BV.Hasher.H10.bulkStoreRange (store d) s e st⟩
+
+/-- additive whatever `Store` does -/
+theorem h10Model_additive {σ : Type} (store : ByteArray → Nat → σ → Option σ) (empty : σ) :
+    Additive (h10Model store empty) := by
+  intro h d a b c hab hbc
+  exact liftBulk_additive (bulk := fun d _ s e st => BV.Hasher.H10.bulkStoreRange (store d) s e st)
+    (I := fun _ => True) (bound := c) (store := store)
+    (fun _ _ _ _ _ _ => rfl) (fun _ _ _ _ _ _ => trivial)
+    h (fun _ _ => trivial) d a b c hab hbc (Nat.le_refl _)
+
+/-- local as soon as `Store` at `ix` reads `data[.. ix + L)` only (`L = StoreLookahead() = 128`,
+the `max_length` handed to `StoreAndFindMatchesH10`) -/
+theorem h10Model_local {σ : Type} (store : ByteArray → Nat → σ → Option σ) (empty : σ) (L : Nat) (hL : 1 ≤ L)
+    (hloc : ∀ d d' ix st k, Agree d d' k → ix + L ≤ k → store d ix st = store d' ix st) :
+    Local (h10Model store empty) (L - 1) := by
+  intro h d d' a b hd
+  exact liftBulk_local (bulk := fun d _ s e st => BV.Hasher.H10.bulkStoreRange (store d) s e st)
+    (L := L) hL (I := fun _ => True) (bound := b) (store := store)
+    (fun _ _ _ _ _ _ => rfl) hloc h (fun _ _ => trivial) d d' a b (Nat.le_refl _) hd
+
+/-! ## the favor loop as a C19 partition -/
+
+/-- the `BulkStoreRange` calls the favor loop has made when it hands the index to job `j`, as the
+cut points of C19's `runPieces` (every piece through the bulk entry point), with `stored_end` -/
+def favorPieces (t n overlap : Nat) : Nat → List (Bool × Nat) × Nat
+  | 0 => ([], 0)
+  | j + 1 =>
+    let p := favorPieces t n overlap j
+    if bnd t n (j + 1) > overlap ∧ bnd t n (j + 1) - overlap > p.2 then
+      (p.1 ++ [(true, bnd t n (j + 1) - overlap)], bnd t n (j + 1) - overlap)
+    else p
+
+theorem runPieces_snoc {σ : Type} (range bulk : Nat → Nat → σ → Option σ) (c : Nat) :
+    ∀ (ps : List (Bool × Nat)) (s : Nat) (st : σ),
+      runPieces range bulk s (ps ++ [(true, c)]) st = (runPieces range bulk s ps st).bind (bulk (endOf s ps) c)
+  | [], s, st => by
+    simp only [List.nil_append, runPieces, endOf, if_true, Option.bind_some]
+    cases bulk s c st <;> rfl
+  | (b, c') :: rest, s, st => by
+    simp only [List.cons_append, runPieces, endOf]
+    cases (if b = true then bulk s c' st else range s c' st) with
+    | none => rfl
+    | some st' => exact runPieces_snoc range bulk c rest c' st'
+
+theorem endOf_snoc (c : Nat) : ∀ (ps : List (Bool × Nat)) (s : Nat), endOf s (ps ++ [(true, c)]) = c
+  | [], _ => rfl
+  | (_, c') :: rest, _ => by simp only [List.cons_append, endOf]; exact endOf_snoc c rest c'
+
+theorem sorted_snoc (c : Nat) : ∀ (ps : List (Bool × Nat)) (s : Nat), Sorted s ps → endOf s ps ≤ c →
+    Sorted s (ps ++ [(true, c)])
+  | [], _, _, h => ⟨h, trivial⟩
+  | (_, c') :: rest, _, hs, h => ⟨hs.1, sorted_snoc c rest c' hs.2 h⟩
+
+/-- the cut points are consecutive from 0 and end at `stored_end` -/
+theorem favorPieces_sorted (t n overlap : Nat) : ∀ j,
+    Sorted 0 (favorPieces t n overlap j).1 ∧ endOf 0 (favorPieces t n overlap j).1 = (favorPieces t n overlap j).2 := by
+  intro j
+  induction j with
+  | zero => exact ⟨trivial, rfl⟩
+  | succ j ih =>
+    simp only [favorPieces]
+    split
+    · rename_i hg
+      exact ⟨sorted_snoc _ _ 0 ih.1 (by rw [ih.2]; omega), endOf_snoc _ _ 0⟩
+    · exact ih
+
+/-- `prebuilt_is_partition`: for every hasher whose abstract `bulk` is a lifted `BulkStoreRange`, the
+shared index handed to job `j` IS C19's `runPieces` over `favorPieces` from the empty index — so
+C19 `partition_irrelevant_basic/_adv/_h9/_h10` apply to it verbatim -/
+theorem prebuilt_is_partition {σ : Type} (bulk : ByteArray → Nat → Nat → Nat → σ → Option σ) (empty : σ)
+    (input : List Nat) (t n overlap : Nat) : ∀ j,
+    prebuilt (⟨some empty, liftBulk bulk⟩ : HasherModel (Option σ)) input t n overlap j =
+      (runPieces (bulk (toBA input) USIZE_MAX) (bulk (toBA input) USIZE_MAX) 0 (favorPieces t n overlap j).1 empty,
+       (favorPieces t n overlap j).2) := by
+  intro j
+  induction j with
+  | zero => rfl
+  | succ j ih =>
+    simp only [prebuilt, favorPieces, ih]
+    split
+    · rw [runPieces_snoc, (favorPieces_sorted t n overlap j).2]
+      rfl
+    · rfl
+
 /-! ## which index the job ends up with -/
 
 /-- the match index job `thread_index ≥ 1` compresses with after
